@@ -292,6 +292,20 @@ class Interp:
         if s.exc is not None:
             e = s.exc
             if isinstance(e, ast.Call):
+                # the arguments of the exception are evaluated first: a failing lookup inside the message raises instead of the intended error
+                n0 = len(self.raises)
+                for a_ in list(e.args) + [k_.value for k_ in e.keywords]:
+                    try:
+                        self.eval(a_, cc)
+                    except _BranchExit:
+                        raise
+                    except Exception:
+                        pass
+                if len(self.raises) > n0:
+                    if not self._under_local_guard(cc):
+                        cc.done = True
+                        return
+                    raise _BranchExit()
                 e = e.func
             kind = src(e)
         self.raises.append((kind, self.guards(), self.where()))
@@ -1051,11 +1065,13 @@ class Interp:
                 d.d[kv.p.as_const()] = vv
             else:
                 d.stores.append((tuple(self.frames), kv, vv, None, e))
+        d.complete = not d.stores
         return d
 
     def ev_JoinedStr(self, e, cc):
         parts = []
-        for v in e.values:
+        symbolic = False
+        for v in e.values:          # every field is evaluated (a failing lookup in a later field still raises)
             if isinstance(v, ast.Constant):
                 parts.append(str(v.value))
             else:
@@ -1066,7 +1082,9 @@ class Interp:
                     c = x.p.as_const()
                     parts.append(str(int(c)) if c.denominator == 1 else str(float(c)))
                 else:
-                    return Term("fstring", [Const(src(e))])
+                    symbolic = True
+        if symbolic:
+            return Term("fstring", [Const(src(e))])
         return Const("".join(parts))
 
     def ev_UnaryOp(self, e, cc):
@@ -1845,6 +1863,10 @@ def _const_to_v(val) -> V:
         if all(isinstance(x, (str, bool)) or x is None for x in val):
             return Const(val)
         return TupleV([_const_to_v(x) for x in val])
+    if isinstance(val, dict) and all(isinstance(k_, (str, int, bool)) or k_ is None for k_ in val):
+        d = DictV({k_: _const_to_v(v_) for k_, v_ in val.items()})
+        d.complete = True            # a literal table: a key that is not listed is absent
+        return d
     return Const(val)
 
 
